@@ -11,6 +11,16 @@ CHECKS = {
    "Every leaf count 1..=255 x every position x both profiles x 4 leaf families is executed on the real MerkleTree; each issued path is recomputed by the tree itself and by an independent reference fold with the protocol's node width; binding is checked against every other leaf/index and every single-element path change; every ordered pair (thorough: all 255^2) and triples of batch sizes are replayed on one reused object and compared with fresh trees.",
    "Trusted: sha2 SHA-512, the reference fold in rtref::merkle. Leaf bytes are a structured alphabet, not all byte strings.",
    "DESIGN.md §3 C04"),
+ "C05": ("E-SEQ", "exploration",
+   "bounded-exhaustive small-scope enumeration of byte strings and API call sequences, differential against an independent reference codec",
+   "All word sequences up to length 5 (thorough 6) over a 23-word alphabet chosen to hit every guard, all short byte strings, every single (thorough: double) header-word deviation of 11 valid corpus messages up to 64 KiB, every truncation; all 2^18 tag subsets x value-length patterns through the API. Oracle: accept iff the reference codec accepts, identical content, identical re-encoding, exact framing.",
+   "Trusted: rtref::codec (written from the format description). Values are aligned fillers, not arbitrary bytes; value bytes do not influence the codec's control flow.",
+   "DESIGN.md §3 C05"),
+ "C06": ("E-SEQ", "exploration",
+   "bounded-exhaustive enumeration of byte strings (small scope, header deviations, every length 0..=65536, nesting depth chains) executed on the real decoder and Display under catch_unwind / in child processes",
+   "Same input spaces as C05 plus every length 0..=65536 x 4 fills and nesting chains up to depth 8191 (the maximum that fits 64 KiB); each case runs from_bytes and Display; a panic, abort or stack overflow, or values that are not exactly the bytes after the header, is a violation.",
+   "Stack bound is checked on an 8 MiB stack with the harness build profile (optimised, debug assertions on). Depth cases that exceed the wall cap are reported as caps, not verdicts.",
+   "DESIGN.md §3 C06"),
 }
 
 PENDING_REASON = "check not built yet in this session (planned, see DESIGN.md §3); no claim is made until it is"
